@@ -39,7 +39,7 @@ def base_series(rnd, first, n, none):
              "wind": rnd.choice(["0", "0.2", "0.49", "0.0", "0.5"]) if rnd.random() < 0.15 else _num(rnd, 0, 9), "prec": _num(rnd, 0, 30),
              "et0": _num(rnd, 0, 5), "verd": _num(rnd, 0, 9), "sund": _num(rnd, 0, 14)}
         if rnd.random() < 0.1:
-            r[rnd.choice(["tavg", "rad", "prec", "sund", "verd"])] = none
+            r[rnd.choice(["tavg", "rad", "prec", "sund", "verd", "et0"])] = none
         for k in r:
             if r[k] != none:
                 r[k] = _spell(rnd, r[k])
@@ -505,7 +505,7 @@ def oracle_wellformed(cases, results):
                 if not present[name]:
                     continue
                 w = float(r[name])
-                if w != none or name == "et0":
+                if w != none:
                     if val != w:
                         msg = "%s of %s stored as %r, written %r" % (name, d, val, r[name])
                 else:
